@@ -4,6 +4,7 @@ import (
 	"context"
 	"io"
 	"sync"
+	"time"
 
 	"google.golang.org/grpc"
 	"google.golang.org/grpc/metadata"
@@ -70,12 +71,16 @@ type FakeStream struct {
 	FailErr    error
 	// KeepOpenAfterCloseSend models a server that does not end the RPC on half-close.
 	KeepOpenAfterCloseSend bool
-	nSend                  int
-	broken                 error
-	closedSend             bool
-	queue                  []recvItem
-	nRecvCalls             int
-	nRecvDone              int
+	// StatusDelay: after a Send failure the status reaches Recv only this much later
+	// (on a real transport the two sides of a stream learn of its end separately).
+	StatusDelay time.Duration
+	brokenAt    time.Time
+	nSend       int
+	broken      error
+	closedSend  bool
+	queue       []recvItem
+	nRecvCalls  int
+	nRecvDone   int
 }
 
 // NewFakeStream creates a stream.
@@ -111,6 +116,10 @@ func (s *FakeStream) Send(m *spb.ModifyRequest) error {
 	n := s.nSend
 	if s.broken == nil && s.FailSendAt > 0 && n >= s.FailSendAt {
 		s.broken = s.FailErr
+		s.brokenAt = time.Now()
+		if s.StatusDelay > 0 {
+			time.AfterFunc(s.StatusDelay+time.Millisecond, s.cond.Broadcast)
+		}
 	}
 	if s.broken != nil {
 		s.mu.Unlock()
@@ -146,7 +155,7 @@ func (s *FakeStream) Recv() (*spb.ModifyResponse, error) {
 			s.nRecvDone++
 			return it.resp, it.err
 		}
-		if s.broken != nil {
+		if s.broken != nil && (s.StatusDelay == 0 || s.brokenAt.IsZero() || time.Since(s.brokenAt) >= s.StatusDelay) {
 			s.nRecvDone++
 			return nil, s.broken
 		}
@@ -199,6 +208,13 @@ func (s *FakeStream) SendClosed() bool {
 	s.mu.Lock()
 	defer s.mu.Unlock()
 	return s.closedSend
+}
+
+// RecvInProgress reports whether a Recv call of the client is currently blocked on this stream.
+func (s *FakeStream) RecvInProgress() bool {
+	s.mu.Lock()
+	defer s.mu.Unlock()
+	return s.nRecvCalls > s.nRecvDone
 }
 
 // Drained reports whether everything pushed was read by the client.
